@@ -644,7 +644,7 @@ def spec_tree_violations(c, res):
 # ---------------------------------------------------------------------------------------------------
 # C: edits
 EDIT_NAMES = ['latin-1', 'Latin-1', 'KOI8-R', 'utf-8', 'ascii', 'UTF-16', 'iso-8859-7', 'rot13', 'bogus', '123', 'latin 1', 'x;y', '']
-KINDS = ['comment', 'unknown', 'import', 'variables', 'style']
+KINDS = ['comment', 'unknown', 'import', 'variables', 'namespace', 'style']
 
 
 def text_codec(n):
@@ -750,6 +750,11 @@ def gen_edits(rng):
 
 def fixed_edits():
     return [
+        [{'op': 'enc', 'e': 'latin-1'}, {'op': 'ins', 'rule': 'namespace', 'index': 0, 'inorder': True},
+         {'op': 'ins', 'rule': 'namespace', 'index': 0, 'inorder': False}, {'op': 'ins', 'rule': 'import', 'index': 1, 'inorder': False},
+         {'op': 'ins', 'rule': 'namespace', 'index': None, 'inorder': True}, {'op': 'ins', 'rule': 'style', 'index': 1, 'inorder': False},
+         {'op': 'ins', 'rule': 'import', 'index': 3, 'inorder': False}, {'op': 'del', 'i': 1}, {'op': 'enc', 'e': None},
+         {'op': 'text', 'rules': ['charset=ascii', 'namespace', 'import', 'namespace', 'variables', 'namespace']}],
         [{'op': 'enc', 'e': 'Latin-1'}, {'op': 'enc', 'e': 'bogus'}, {'op': 'enc', 'e': 'KOI8-R'}, {'op': 'enc', 'e': None}],
         [{'op': 'ins', 'rule': 'style', 'index': None, 'inorder': False}, {'op': 'enc', 'e': 'ascii'},
          {'op': 'ins', 'rule': 'comment', 'index': 0, 'inorder': False}, {'op': 'ins', 'rule': 'import', 'index': 0, 'inorder': False},
@@ -774,6 +779,9 @@ def mk_rule(cssutils, kind, k):
         return css.CSSImportRule(href='http://h/i.css')
     if kind == 'variables':
         return css.CSSVariablesRule()
+    if kind == 'namespace':
+        # a prefix and a URI that no other rule of the history has (the model's `Rule.ns`)
+        return css.CSSNamespaceRule(namespaceURI='http://n/%d' % k, prefix='p%d' % k)
     return [lambda: css.CSSStyleRule(selectorText='a'), lambda: css.CSSMediaRule('print'), lambda: css.CSSPageRule(),
             lambda: css.CSSFontFaceRule()][k % 4]()
 
@@ -796,6 +804,8 @@ def show_rules(sheet):
             out.append('import')
         elif t == r.VARIABLES_RULE:
             out.append('variables')
+        elif t == r.NAMESPACE_RULE:
+            out.append('namespace')
         elif t in (r.STYLE_RULE, r.MEDIA_RULE, r.PAGE_RULE, r.FONT_FACE_RULE):
             out.append('style')
         else:
@@ -831,8 +841,9 @@ def run_edits(cssutils, ops):
                 else:
                     status = 'IndexSizeErr'
             elif o['op'] == 'text':
-                sheet.cssText = ''.join(('@charset "%s";' % r[8:]) if r.startswith('charset=') else TEXT_OF[r]
-                                        for r in o['rules'])
+                sheet.cssText = ''.join(('@charset "%s";' % r[8:]) if r.startswith('charset=') else
+                                        ('@namespace t%d_%d "http://n/t%d_%d";' % (k, j, k, j)) if r == 'namespace' else TEXT_OF[r]
+                                        for j, r in enumerate(o['rules']))
         except xml.dom.DOMException as e:
             status = type(e).__name__
         finally:
